@@ -182,11 +182,34 @@ def spec_values(d, point):
     return dict(V=V, rates=rates, pure=pure, ode=ode, exact=exact)
 
 
+def shift_range(d, start):
+    """the numbered states y1..yn of a definition renamed y<start>..y<start+n-1>: a range such as 'y8:12' whose indices
+    do not all have the same number of digits (names change everywhere at once; the definition stays the same model)"""
+    import re, json as _json
+    if start == 1 or not all(re.fullmatch(r"y\d+", n) for n in d["states"]):
+        return d
+    ren = lambda txt: re.sub(r"\by(\d+)\b", lambda mo: "y%d" % (int(mo.group(1)) - 1 + start), txt)
+    d = _json.loads(_json.dumps(d))
+    d["states"] = [ren(n) for n in d["states"]]
+    for e in d["events"]:
+        e["rate"] = ren(e["rate"])
+        for tr in e["trans"]:
+            tr["mag"] = ren(tr["mag"])
+    for o in d["odes"]:
+        o["eqn"] = ren(o["eqn"])
+    for key in ("derived", "_twin_first"):
+        if d.get(key):
+            d[key] = [[k, ren(v)] for k, v in d[key]]
+    d["range_from"] = start
+    return d
+
+
 # ------------------------------------------------------------------ pygom construction
 def decl_states(d):
     s = d["states"]
     if d["decl"] == "range" and not any(l is not None for l in (d.get("lims") or [])):
-        return ["y1:%d" % (len(s) + 1)]
+        a = int(d.get("range_from", 1))
+        return ["y%d:%d" % (a, a + len(s))]
     if d.get("lims"):
         # mixed declaration: plain names get the default (0, None); tuples carry explicit limits
         return [n if l is None else (n, tuple(l)) for n, l in zip(s, d["lims"])]
@@ -205,7 +228,8 @@ def build(d, route="event", rng=None, lambda_backend=True, order=None, reuse=Fal
     if d.get("index_style") and d["decl"] == "range" and not any(l is not None for l in (d.get("lims") or [])):
         # a range-style declaration 'y1:n' may be addressed by position in every equation string: y[0] is y1, y[1] is y2, ...
         import re, json as _json
-        ix = lambda txt: re.sub(r"\by(\d+)\b", lambda mo: "y[%d]" % (int(mo.group(1)) - 1), txt)
+        a = int(d.get("range_from", 1))
+        ix = lambda txt: re.sub(r"\by(\d+)\b", lambda mo: "y[%d]" % (int(mo.group(1)) - a), txt)
         d = _json.loads(_json.dumps(d))
         for e in d["events"]:
             e["rate"] = ix(e["rate"])
@@ -290,6 +314,10 @@ def build(d, route="event", rng=None, lambda_backend=True, order=None, reuse=Fal
     if tr_objs: kw["transition"] = [o for _, o in tr_objs]
     if bd_objs: kw["birth_death"] = [o for _, o in bd_objs]
     if ode_objs: kw["ode"] = [o for _, o in ode_objs]
+    # a single birth/death process or ODE term may be handed over as the Transition itself (documented by the list setters)
+    for key in ("birth_death", "ode"):
+        if len(kw.get(key, ())) == 1 and (d.get("_bare") or (rng is not None and rng.random() < 0.35)):
+            kw[key] = kw[key][0]
     # reuse: the same definition objects (Transition / Event instances) are used for a first model that is thrown away;
     # entering a definition into a model must not change the definition
     for _ in range(2 if reuse else 1):
